@@ -132,8 +132,7 @@ void GridWavelet::getQuadratureWeights(double weights[]) const{
         weights[i] = evalIntegral(work.getIndex(i));
     }
     TSG_VERIF_SCHED("wcache:before_check");
-    TSG_VERIF_EVENT("wcache_check", {0, 1, (inter_matrix.getNumRows() != num_points) ? 0 : 1});
-    if (inter_matrix.getNumRows() != num_points) buildInterpolationMatrix();
+    ensureInterpolationMatrix(num_points);
     TSG_VERIF_SCHED("wcache:before_use");
     TSG_VERIF_EVENT("wcache_use_begin", {0, 1});
     TSG_VERIF_SCHED("wcache:in_use");
@@ -148,8 +147,7 @@ void GridWavelet::getInterpolationWeights(const double x[], double weights[]) co
         weights[i] = evalBasis(work.getIndex(i), x);
     }
     TSG_VERIF_SCHED("wcache:before_check");
-    TSG_VERIF_EVENT("wcache_check", {0, 2, (inter_matrix.getNumRows() != num_points) ? 0 : 1});
-    if (inter_matrix.getNumRows() != num_points) buildInterpolationMatrix();
+    ensureInterpolationMatrix(num_points);
     TSG_VERIF_SCHED("wcache:before_use");
     TSG_VERIF_EVENT("wcache_use_begin", {0, 2});
     TSG_VERIF_SCHED("wcache:in_use");
@@ -164,8 +162,7 @@ void GridWavelet::getDifferentiationWeights(const double x[], double weights[]) 
         evalDiffBasis(work.getIndex(i), x, &(weights[i * num_dimensions]));
     }
     TSG_VERIF_SCHED("wcache:before_check");
-    TSG_VERIF_EVENT("wcache_check", {0, 3, (inter_matrix.getNumRows() != num_points) ? 0 : 1});
-    if (inter_matrix.getNumRows() != num_points) buildInterpolationMatrix();
+    ensureInterpolationMatrix(num_points);
     TSG_VERIF_SCHED("wcache:before_use");
     TSG_VERIF_EVENT("wcache_use_begin", {0, 3});
     TSG_VERIF_SCHED("wcache:in_use");
@@ -405,6 +402,14 @@ void GridWavelet::evalDiffBasis(const int p[], const double x[], double jacobian
         t *= value_cache[i+1];
         jacobian[i] *= t;
     }
+}
+
+void GridWavelet::ensureInterpolationMatrix(int num_points) const{
+    // the matrix is a cache shared by all const methods, (re)building it must be done by one thread at a time
+    // after the lock is released the matrix is only read, until a non-const method changes the points
+    std::lock_guard<std::mutex> lock(inter_matrix_lock);
+    TSG_VERIF_EVENT("wcache_check", {0, 0, (inter_matrix.getNumRows() != num_points) ? 0 : 1});
+    if (inter_matrix.getNumRows() != num_points) buildInterpolationMatrix();
 }
 
 void GridWavelet::buildInterpolationMatrix() const{
